@@ -40,6 +40,26 @@ def _fns():
     return next_fast_len, prev_fast_len
 
 
+ARGTYPES = ("int", "int64", "uint64", "int32")
+
+
+def as_type(N, t):
+    """the integer N as an argument of type t (None if t cannot hold it)"""
+    import numpy as np
+    if t == "int":
+        return int(N)
+    info = np.iinfo(t)
+    # the search starts from 2 N: fixed-width types are used where 2 N still fits (beyond that NumPy's own wrap-around
+    # arithmetic, not the search, decides the outcome; lengths reach the functions as Python ints)
+    return getattr(np, t)(N) if info.min <= N and 2 * N <= info.max else None
+
+
+def judge_result(got, exp):
+    """is `got` the integer exp?  (any integer type; bool / float / anything else is not an integer result)"""
+    import numbers
+    return isinstance(got, numbers.Integral) and not isinstance(got, bool) and int(got) == exp
+
+
 def _pairs_worker(arg):
     """arg = (pairs [(s, s2)], clear): the four neighbour calls of the real code for every adjacent pair."""
     pairs, clear = arg
@@ -53,26 +73,115 @@ def _pairs_worker(arg):
         if s + 1 < s2:
             calls.append(("next", s + 1, s2, "lattice:next-after-smooth"))
             calls.append(("prev", s2 - 1, s, "lattice:prev-before-smooth"))
-        for fn, N, exp, key in calls:
+        for ci, (fn, N, exp, key) in enumerate(calls):
+            # argument type: every integer type that can hold N, in turn over the lattice
+            t = ARGTYPES[(s + ci) % len(ARGTYPES)]
+            arg = as_type(N, t)
+            if arg is None:
+                t, arg = "int", int(N)
             n += 1
             try:
-                got = (nx if fn == "next" else pv)(N)
+                import warnings
+                with warnings.catch_warnings():
+                    warnings.simplefilter("ignore")
+                    got = (nx if fn == "next" else pv)(arg)
             except Exception as e:  # noqa
                 got = "raised %r" % (e,)
-            if got != exp or isinstance(got, bool):
-                bad.append((key, fn, N, exp, got))
+            if not judge_result(got, exp):
+                bad.append((key if t == "int" else key + ":" + t, fn, N, exp, "%r" % (got,), t))
     return bad, n
 
 
 def _calls_worker(ns):
+    import numbers
+    import warnings
     nx, pv = _fns()
     out = []
-    for N in ns:
+    for i, N in enumerate(ns):
+        t = ARGTYPES[(N + i) % len(ARGTYPES)]
+        arg = as_type(N, t)
+        if arg is None:
+            t, arg = "int", int(N)
         try:
-            out.append((N, int(nx(N)), int(pv(N)), None))
+            with warnings.catch_warnings():
+                warnings.simplefilter("ignore")
+                a, b = nx(arg), pv(arg)
+            if not all(isinstance(v, numbers.Integral) and not isinstance(v, bool) for v in (a, b)):
+                out.append((N, 0, 0, "results %r, %r for %s(%d) are not integers" % (a, b, t, N)))
+            else:
+                out.append((N, int(a), int(b), None))
         except Exception as e:  # noqa
-            out.append((N, 0, 0, repr(e)))
+            out.append((N, 0, 0, "%s argument: %r" % (t, e)))
     return out
+
+
+def _session_worker(arg):
+    """Call-order sessions in one process: queries of equal VALUE but different type (float-valued, NumPy integer,
+    Python int) in every order, both functions interleaved.  Float-valued queries are outside the property and are
+    not judged themselves; every integer query must return the integer the specification names, whatever was
+    asked before.  arg = [(v, next(v), prev(v))]  ->  [(key, description, case)]"""
+    import itertools
+    import warnings
+    import numpy as np
+    nx, pv = _fns()
+    bad = []
+    kinds = {"float": float, "int": int, "int64": np.int64, "float32": np.float32}
+    orders = [p for p in itertools.permutations(("float", "int", "int64"), 3)] + [("float32", "int"), ("int", "float", "int")]
+    for j, (v, en, ep) in enumerate(arg):
+        order = orders[j % len(orders)]
+        fns = (("next", nx, en), ("prev", pv, ep)) if j % 2 else (("prev", pv, ep), ("next", nx, en))
+        for k in order:
+            if k == "float32" and float(np.float32(v)) != v:
+                continue
+            for name, f, exp in fns:
+                try:
+                    with warnings.catch_warnings():
+                        warnings.simplefilter("ignore")
+                        got = f(kinds[k](v))
+                except Exception as e:  # noqa
+                    got = e
+                # Python-int queries (what len() hands over) must return an integer; a NumPy-integer query is judged
+                # by value only: its memo entry is shared with an equal float (hash and == agree), which the property
+                # does not speak about
+                ok = judge_result(got, exp) if k == "int" else (k != "int64" or (not isinstance(got, Exception) and got == exp))
+                if not ok:
+                    bad.append(("session:%s-after-%s" % (k, "+".join(order[:order.index(k)]) or "nothing"),
+                                "%s_fast_len(%s(%d)) = %r after the queries %r of the same value; specification says %d"
+                                % (name, k, v, got, order, exp), {"kind": "session", "v": v, "next": en, "prev": ep, "j": j}))
+        if v <= 5000:
+            # a signal of that length, after those queries
+            try:
+                from common import pb, u
+                z = pb.Signal(np.arange(v, dtype=float), sample_rate=1 * u.Hz)
+                y = pb.fast_len(z)
+                if len(y) != ep or not np.array_equal(np.asarray(y.data), np.arange(ep, dtype=float)):
+                    bad.append(("session:fast_len", "fast_len of a %d-sample signal after the queries %r of that value has %d samples, "
+                                "specification says %d" % (v, order, len(y), ep), {"kind": "session", "v": v, "next": en, "prev": ep, "j": j}))
+            except Exception as e:  # noqa
+                bad.append(("session:fast_len-raised", "fast_len of a %d-sample signal after the queries %r of that value raised %r"
+                            % (v, order, e), {"kind": "session", "v": v, "next": en, "prev": ep, "j": j}))
+    return bad
+
+
+def run_sessions(chk, lattice, spool, rnd):
+    """spool: a one-process pool forked at the start and used for nothing else (its memo is untouched)"""
+    small = [s for s in lattice if 11 <= s <= 5000]
+    vals = rnd.sample(small, 40) + [s + 1 for s in rnd.sample(small, 10)] + rnd.sample(lattice, 30 if chk.tier == "quick" else 300) \
+        + [4096, 2 ** 30, 2 ** 52, 3 ** 33]
+    vals = [v for v in dict.fromkeys(vals) if v < 2 ** 53]        # float(v) must be v itself
+    arg = []
+    for v in vals:
+        i = bisect.bisect_right(lattice, v) - 1
+        arg.append((v, v if lattice[i] == v else lattice[i + 1], lattice[i]))
+    try:
+        bad = spool.apply_async(_session_worker, (arg,)).get(timeout=600)
+    except mp.TimeoutError:
+        chk.violation("termination", "call-order session did not return within 600 s", {"kind": "smoke", "ns": vals[:10]})
+        return
+    for key, desc, case in bad:
+        chk.violation(key, desc, case)
+    chk.validated += len(arg)
+    chk.notes["call_order_sessions"] = len(arg)
 
 
 # ---------------------------------------------------------------- helpers
@@ -99,9 +208,9 @@ def _tlc_gen(chk, name, module, cfg, res, **kw):
         res[name] = (e, out)
 
 
-def _call_violation(chk, key, fn, N, exp, got, how):
-    chk.violation(key, "%s_fast_len(%d) = %s, specification says %d (%s)" % (fn, N, got, exp, how),
-                  {"kind": "call", "fn": fn, "N": N, "expected": exp})
+def _call_violation(chk, key, fn, N, exp, got, how, t="int"):
+    chk.violation(key, "%s_fast_len(%s(%d)) = %s, specification says %d (%s)" % (fn, t, N, got, exp, how),
+                  {"kind": "call", "fn": fn, "N": N, "expected": exp, "argtype": t})
 
 
 # ---------------------------------------------------------------- (a) exhaustive range
@@ -127,11 +236,13 @@ def replay_exhaustive(chk, recs, rnd):
             if clear is None:
                 g = getattr(g, "__wrapped__", g)
             e = exp[fn]
+            typed = how.startswith("descending")          # this pass hands the argument over in every integer type
             for N in order:
-                got = g(N)
+                t = ARGTYPES[N % len(ARGTYPES)] if typed else "int"
+                got = g(as_type(N, t))
                 n += 1
-                if got != e[N]:
-                    _call_violation(chk, "exhaustive:" + fn, fn, N, e[N], got, how)
+                if not judge_result(got, e[N]):
+                    _call_violation(chk, "exhaustive:" + fn + ("" if t == "int" else ":" + t), fn, N, e[N], repr(got), how, t)
     chk.validated += n
     chk.notes["exhaustive_range"] = [ns[0], ns[-1]]
     chk.notes["exhaustive_calls"] = n
@@ -158,8 +269,8 @@ def replay_lattice(chk, lattice, pool, rnd, nproc):
     ncalls = 0
     for bad, n in pool.imap_unordered(_pairs_worker, jobs):
         ncalls += n
-        for key, fn, N, e, got in bad:
-            _call_violation(chk, key, fn, N, e, got, "neighbour of a 7-smooth number")
+        for key, fn, N, e, got, t in bad:
+            _call_violation(chk, key, fn, N, e, got, "neighbour of a 7-smooth number", t)
     chk.validated += ncalls
     chk.notes["lattice_size"] = len(lattice)
     chk.notes["lattice_pairs_replayed"] = len(chosen)
@@ -388,6 +499,7 @@ def run(chk):
     thorough = chk.tier == "thorough"
     nproc = min(12, os.cpu_count() or 4)
     pool = mp.get_context("fork").Pool(nproc)       # before any thread / dask pool exists
+    spool = mp.get_context("fork").Pool(1)
     try:
         # watchdog: the loops must come back at all (a non-terminating search would hang every later replay)
         smoke = [11, 12, 13, 97, 1000, 1001, 65537, 10 ** 6 + 3, 2 ** 40 + 1, 3 ** 30 + 1]
@@ -443,6 +555,7 @@ def run(chk):
         os.remove(files["sig"])
         replay_signals(chk, sig_cases, rnd)
         replay_big_dask(chk, lattice, rnd)
+        run_sessions(chk, lattice, spool, rnd)
         th[0].join()
         r, out = res["loops"]
         if isinstance(r, Exception):
@@ -456,6 +569,7 @@ def run(chk):
             os.remove(out)
     finally:
         pool.terminate()
+        spool.terminate()
     chk.assumptions += [
         "TLC explores the transcribed loops for every N of the exhaustive range only; beyond it the input/output "
         "relation is checked at and next to every 7-smooth number below 2^62 (where a wrong result must change) "
@@ -472,9 +586,17 @@ def replay(doc):
         nx, pv = _fns()
         g = nx if c["fn"] == "next" else pv
         _clear(g)
-        got = g(c["N"])
-        print("%s_fast_len(%d) = %r, expected %d" % (c["fn"], c["N"], got, c["expected"]))
-        return 0 if got == c["expected"] else 1
+        t = c.get("argtype", "int")
+        got = g(as_type(c["N"], t))
+        print("%s_fast_len(%s(%d)) = %r, expected %d" % (c["fn"], t, c["N"], got, c["expected"]))
+        return 0 if judge_result(got, c["expected"]) else 1
+    if kind == "session":
+        bad = _session_worker([(0, 0, 0)] * c["j"] + [(c["v"], c["next"], c["prev"])])
+        for key, desc, _ in bad:
+            print("VIOLATION property=C18 replay=(this case)  # %s: %s" % (key, desc))
+        if not bad:
+            print("case passes")
+        return 1 if bad else 0
     if kind == "smoke":
         pool = mp.get_context("fork").Pool(1)
         try:
